@@ -346,6 +346,8 @@ def slice_region(term):
         return (root, s, s + k) if str(t[2]) == '0' else (root, s + k, e)
     if is_call(t) and t[3] in ('deref_mut', 'deref', 'as_mut', 'as_mut_slice', 'borrow_mut') and t[2]:
         return slice_region(t[2][0])
+    if is_call(t) and t[3] in ('with_capacity', 'new') and re.search(r'(BytesMut|Vec)', t[1] or ''):
+        return (t, 0, None)  # a fresh, empty buffer: appends start at offset 0
     return None
 
 
@@ -369,7 +371,7 @@ def prefix_layout(body):
     `s[i] = v` and `s.copy_from_slice(&x.to_be_bytes())`; off/width are None when not constant"""
     out = []
     cursors = {}
-    puts = body.calls(pat='BufMut::put_')
+    puts = body.calls(pat='BufMut::put_') + [(bb, t) for bb, t in body.calls(name='extend_from_slice') if re.search(r'BytesMut|Vec', (t.get('fn') or '') + str(t.get('self_ty')))]
     puts.sort(key=lambda x: len(body.dominators().get(x[0], ())))
     for bb, t in puts:
         dst = body.origin(t['args'][0])
@@ -381,7 +383,7 @@ def prefix_layout(body):
         v = body.origin(t['args'][1]) if len(t['args']) > 1 else ('x',)
         if nm in PUT_WIDTH:
             w, e = PUT_WIDTH[nm]
-        elif nm in ('put_slice', 'put'):
+        elif nm in ('put_slice', 'put', 'extend_from_slice'):
             bo = _bytes_of(v)
             w, e, v = bo if bo else (None, '?', v)
         else:
